@@ -442,14 +442,15 @@ def _c19(tier):
     q = tier == "quick"
     base = {"cfg": "dbg-l", "harness": "h_exec", "cases": 1800 if q else 30000, "max_size": 400, "shards": 8, "budget_ms": 30000, "excl": list(GEN_EXCL)}
     # half of the shards also ask for delays that are not whole ticks (option anydelay, not carried by older tapes)
-    return [base, dict(base, opts={"anydelay": "1"})]
+    return [base, dict(base, opts={"anydelay": "1", "imp": "1"})]
 
 
 PROPS["C19"] = {
     "runs": _c19,
     "rule": "Listeners + executor configuration (dbg-l, BUILD_EXECUTOR=ON). A planted timeline problem of the C04/C05 generator with variable times (windows or free starts) is solved with an "
             "executor attached (units_per_tick in {1, 1/2, 2}); then a tape drives 5-36 tick() calls; inside starting()/ending() the tape decides per atom whether to call dont_start_yet / "
-            "dont_end_yet with 1-3 tick units (half of the shards: also half a tick and one and a half ticks), and between ticks whether to report failure() of an active atom that has not ended. A recording executor_listener checks: tick(t) announces exactly "
+            "dont_end_yet with 1-3 tick units (half of the shards: also half a tick and one and a half ticks, and the problems of those shards may carry 1-3 impulsive atoms on an Agent, which are started and ended "
+            "like the others), and between ticks whether to report failure() of an active atom that has not ended. A recording executor_listener checks: tick(t) announces exactly "
             "one more units_per_tick per call; start/end at most once per atom, end only after start; start (end) delivered only when the atom's planned start (end) at that moment is <= current "
             "time; never in the tick() call in which the client delayed it; after every tick() that returns: the start of every started atom still in the plan and the end of every ended atom "
             "are unchanged, and the plan passes the C04/C05/C06 validators; at the end every active atom whose planned start (end) lies before the last processed time was started (ended) "
